@@ -448,6 +448,24 @@ class Calls(DataModels):
         obj = SObj(name, {}, ctor_args=list(args), ctor_kw=dict(kw))
         if name in ('ELFStructs', 'DWARFStructs', 'EHABIStructs'):
             obj.is_structs = True          # its struct attributes are reached abstractly (K1 layouts, K2 obligations)
+        if name == 'DWARFStructs':
+            # DWARFStructs.__new__ (memoised per configuration): stores the four parameters after asserting
+            # the format and the address size; the struct factories it then runs are the K2 obligations
+            names = ['little_endian', 'dwarf_format', 'address_size', 'dwarf_version']
+            vals = dict(zip(names, args))
+            vals.update(kw)
+            vals.setdefault('dwarf_version', 2)
+            if any(n not in vals for n in names):
+                raise PyExc('TypeError', line_of(node), 'DWARFStructs() missing argument')
+            fmt, asz = to_int(vals['dwarf_format']), to_int(vals['address_size'])
+            for cond in (z3.Or(fmt == 32, fmt == 64), z3.Or(asz == 8, asz == 4)):
+                c = z3.simplify(cond)
+                if z3.is_false(c) or (not z3.is_true(c) and not I.ctx.branch(c)):
+                    raise PyExc('AssertionError', line_of(node), 'DWARFStructs parameter')
+            obj.attrs.update(vals)
+            I.assumptions.add('DWARFStructs.__new__ modelled: asserts format in {32,64} and address size in {4,8}, stores its parameters; '
+                              'its struct factories are the K2 obligations')
+            return obj
         if key is not None and key in self.registry:
             self.call_repo(I, key, init, [obj] + list(args), kw, node)
             return obj
